@@ -412,10 +412,15 @@ class ScoredCollector(Collector):
             # flag is true, try to skip ahead to the next block with the
             # minimum required quality
             if usequality and checkquality and minscore is not None:
+                before = matcher.id()
                 skipped = matcher.skip_to_quality(minscore)
                 if skipped:
-                    self.pruned = True
                     self.skipped_times += skipped
+                # Compound matchers can move past documents without reporting
+                # a skipped block, so compare positions as well
+                if (skipped or not matcher.is_active()
+                        or matcher.id() != before):
+                    self.pruned = True
                 # Skipping ahead might have moved the matcher to the end of the
                 # posting list
                 if not matcher.is_active():
